@@ -95,6 +95,7 @@ func scRefText(r scRef) string {
 }
 
 const scOpen = "${{ toJSON("
+const scOpenAny = "${{ fromJSON(toJSON("
 
 // scRendered is the text of a workflow with what the callers need to know about it.
 type scRendered struct {
@@ -137,6 +138,11 @@ func scRender(sh scShape, site scSite, ref scRef, keep map[int]bool, order []int
 		w(prefix + probe)
 		out.refLine = line
 		out.refCol = len(prefix) + len(scOpen) + 1
+	}
+	atAny := func(prefix string) { // for bool / number positions: the probe has type any
+		w(prefix + scOpenAny + scRefText(ref) + ")) }}")
+		out.refLine = line
+		out.refCol = len(prefix) + len(scOpenAny) + 1
 	}
 	is := func(k string, j, s int) bool { return site.K == k && site.J == j && site.S == s }
 
@@ -220,11 +226,6 @@ func scRender(sh scShape, site scSite, ref scRef, keep map[int]bool, order []int
 		if is("jobif", j, 0) {
 			at("    if: ")
 		}
-		if job.Kind == "call" {
-			w("    uses: octo-org/shared/.github/workflows/build.yml@v1")
-			out.jobEnd[j] = line
-			continue
-		}
 		if job.Mx.K == "expr" {
 			w("    strategy:")
 			w("      matrix: ${{ fromJSON(vars.MATRIX) }}")
@@ -234,7 +235,14 @@ func scRender(sh scShape, site scSite, ref scRef, keep map[int]bool, order []int
 			firstLit := ""
 			for _, r := range job.Mx.Rows {
 				if r.Lit {
-					w("        " + r.N + ": [1, 2]")
+					if firstLit == "" && is("mxrow", j, 0) {
+						w("        " + r.N + ":")
+						w("          - 1")
+						w("          - 2")
+						at("          - ")
+					} else {
+						w("        " + r.N + ": [1, 2]")
+					}
 					if firstLit == "" {
 						firstLit = r.N
 					}
@@ -247,13 +255,17 @@ func scRender(sh scShape, site scSite, ref scRef, keep map[int]bool, order []int
 				w("        include: ${{ fromJSON(vars.INCLUDE) }}")
 			case "list":
 				w("        include:")
+				probed := false
 				for _, e := range job.Mx.Inc.Cs {
 					if e == "$" {
 						w("          - ${{ fromJSON(vars.ELEMENT) }}")
 						continue
 					}
 					for i, key := range strings.Split(e, "") {
-						if i == 0 {
+						if i == 0 && !probed && is("mxinc", j, 0) {
+							at("          - " + key + ": ")
+							probed = true
+						} else if i == 0 {
 							w("          - " + key + ": 1")
 						} else {
 							w("            " + key + ": 1")
@@ -267,14 +279,33 @@ func scRender(sh scShape, site scSite, ref scRef, keep map[int]bool, order []int
 			switch job.Mx.Exc {
 			case "expr":
 				w("        exclude: ${{ fromJSON(vars.EXCLUDE) }}")
-			case "list":
+			case "list", "elem":
 				w("        exclude:")
-				w("          - " + firstLit + ": 1")
-			case "elem":
-				w("        exclude:")
-				w("          - " + firstLit + ": 1")
-				w("          - ${{ fromJSON(vars.EXCLUDED) }}")
+				if is("mxexc", j, 0) {
+					at("          - " + firstLit + ": ")
+				} else {
+					w("          - " + firstLit + ": 1")
+				}
+				if job.Mx.Exc == "elem" {
+					w("          - ${{ fromJSON(vars.EXCLUDED) }}")
+				}
 			}
+		}
+		if job.Kind == "call" {
+			w("    uses: octo-org/shared/.github/workflows/build.yml@v1")
+			if is("callwith", j, 0) {
+				w("    with:")
+				at("      arg: ")
+			}
+			if is("callsecret", j, 0) {
+				w("    secrets:")
+				at("      tok: ")
+			}
+			out.jobEnd[j] = line
+			continue
+		}
+		if is("runson", j, 0) {
+			at("    runs-on: ")
 		}
 		switch job.Runs {
 		case "w":
@@ -282,7 +313,28 @@ func scRender(sh scShape, site scSite, ref scRef, keep map[int]bool, order []int
 		case "uw":
 			w("    runs-on: [self-hosted, windows]")
 		default:
-			w("    runs-on: ubuntu-latest")
+			if !is("runson", j, 0) {
+				w("    runs-on: ubuntu-latest")
+			}
+		}
+		if is("container", j, 0) {
+			w("    container:")
+			at("      image: ")
+		}
+		if is("service", j, 0) {
+			w("    services:")
+			w("      db:")
+			at("        image: ")
+		}
+		if is("concurrency", j, 0) {
+			w("    concurrency:")
+			at("      group: ")
+		}
+		if is("timeout", j, 0) {
+			atAny("    timeout-minutes: ")
+		}
+		if is("conterr", j, 0) {
+			atAny("    continue-on-error: ")
 		}
 		if job.Shell != "" {
 			w("    defaults:")
@@ -335,6 +387,9 @@ func scRender(sh scShape, site scSite, ref scRef, keep map[int]bool, order []int
 			default:
 				item("id: "+st, false)
 			}
+			if is("stepname", j, s) {
+				item("name: ", true)
+			}
 			if is("stepif", j, s) {
 				item("if: ", true)
 			}
@@ -350,6 +405,9 @@ func scRender(sh scShape, site scSite, ref scRef, keep map[int]bool, order []int
 			if is("stepenv", j, s) {
 				item("env:", false)
 				at("          PROBE: ")
+			}
+			if is("steptimeout", j, s) {
+				atAny("        timeout-minutes: ")
 			}
 		}
 		out.jobEnd[j] = line
